@@ -899,6 +899,25 @@ def partition_findings(case, n, parts, clears, max_findings=3):
             B.clear()
             if it % s != 0 and len(case.betas) > 1:
                 offmult = True
+            # "the retained history starts at the clear": what the chain and the sampler call the start
+            # position is now the point the chain stands on (every level, through every path)
+            if it > 0:
+                try:
+                    S0, C0 = B.start_position, B.current_positions
+                    for ci, ch in enumerate(B.chains):
+                        sp, cp = ch.start_position, ch.current_position
+                        same = all(_eq(a, b) for p in params for a, b in zip(numpy.atleast_1d(sp[p]).ravel(),
+                                                                             numpy.atleast_1d(cp[p]).ravel()))
+                        for t, l in enumerate(I.levels_of(ch)):
+                            same = same and _rec_equal(params, l.start_position, l.current_position)
+                        same = same and all(_eq(a, b) for p in params
+                                            for a, b in zip(numpy.atleast_1d(S0[p][..., ci]).ravel(),
+                                                            numpy.atleast_1d(C0[p][..., ci]).ravel()))
+                        if not same:
+                            bad('start-after-clear', 'after a clear() at iteration %d the start position (chain %d) is not the '
+                                'point the chain stands on' % (it, ci))
+                except Exception as e:      # noqa: BLE001
+                    bad('start-after-clear-raises', 'reading start_position after a clear raised %r' % (e,))
     collect()
     for what, a, before in held:
         if a.tobytes() != before:
